@@ -8,11 +8,11 @@ PKG = MODULE + '/' + REL
 HDIR = os.path.join(HARNESS, REL)
 
 
-def files(sc, n, fn=None):
+def files(sc, n, fn=None, only=-1):
     fs = [os.path.join(HDIR, f) for f in sorted(os.listdir(HDIR)) if f.startswith('zz_verif_') and f.endswith('.go') and not f.endswith('_test.go')]
     par = sc.path('zz_verif_params.go')
     with open(par, 'w') as f:
-        f.write('//go:build verif\n\npackage nfa\n\nconst c09N = %d\nconst c09FrameN = %d\n' % (n, fn if fn is not None else n))
+        f.write('//go:build verif\n\npackage nfa\n\nconst c09N = %d\nconst c09FrameN = %d\nconst c09FrameOnly = %d\n' % (n, fn if fn is not None else n, only))
     return fs + [par]
 
 
@@ -48,19 +48,20 @@ def run(tier, rep):
     thorough = tier == 'thorough'
     N = 5 if thorough else 4
     with Scratch() as sc:
-        FN = 6 if thorough else 5
+        FN = 5 if thorough else 4
         fs = files(sc, N, FN)
         res = run_gosym(cfg(fs, 'harnessC09Whole', tier), sc, 'whole', timeout=6 * 3600)
         merge_gosym(rep, res, 'nfa.Parse + real combinator parser on every printable-ASCII text of <= %d characters: accepted => whole text is a sentence of the documented grammar' % N)
         handle(rep, res, fs, sc)
-        res = run_gosym(cfg(fs, 'harnessC09Framed', tier), sc, 'framed', timeout=6 * 3600)
-        merge_gosym(rep, res, 'the same on 14 fixed frames (\\p{..}, [[:..:]], a{..}, \\x.., groups) around every printable-ASCII text of <= %d characters' % FN)
+        res = run_gosym(cfg(fs, 'harnessC09Framed', tier, opaque=[PKG + '.runesToNFA', PKG + '.runeRangesToNFA', PKG + '.containsRune', PKG + '.includesRune', PKG + '.quantifyNFA']), sc, 'framed', timeout=6 * 3600)
+        merge_gosym(rep, res, 'the same on 12 fixed frames (\\p{..}, [[:..:]], a{..}, \\x.., groups) around every printable-ASCII text of <= %d characters (names of categories and classes: <= %d letters)' % (FN, FN + 1))
         handle(rep, res, fs, sc)
         res = run_gosym(cfg(fs, 'harnessC09Meaningless', tier), sc, 'meaningless')
         merge_gosym(rep, res, 'descending ranges [x-y], [^x-y] and repetition ranges a{n,m}: accepted iff meaningful, error names the problem')
         handle(rep, res, fs, sc)
         rep.assumptions += [
             'the automaton constructors of github.com/moorara/algo/automata are opaque (zero results): the mappers\' control flow and error accumulation do not depend on automaton contents; languages are the subject of C02/C10',
+            'in the framed harness the automaton-building helpers of the nfa package (runesToNFA, runeRangesToNFA, containsRune, includesRune: loops over the Unicode tables) are opaque too; acceptance and error accumulation do not depend on their results',
             'reference: a character-level recogniser of the documented pattern grammar written as Boolean terms over the symbolic text (harness/internal/regex/parser/nfa/zz_verif_c09.go)',
             'the clause "every pattern written with the documented constructs in their unambiguous forms is accepted" is decided on the canonical prints of the C02/C10 corpora (a rejected corpus pattern is reported there)',
             'range ends are split into concrete cases by the solver over the windows 5..> and a..h (the mappers branch on every group member); repetition bounds are single digits 0..4',
